@@ -332,6 +332,9 @@ class AdapterProp(core.Prop):
         for _ in range(1200 if quick else 40000):
             script = mgr.gen_script(rng)
             script["noms"] = []
+            if rng.random() < 0.08:
+                # rewards a float cannot hold exactly (numpy integers beyond 2^53): handed on as they are
+                script["unit"] = rng.choice([2 ** 53 + 1, 2 ** 54 + 3, 10 ** 15 + 7])
             kind = rng.randrange(2)
             if rng.random() < 0.25:
                 # single learner: gym
